@@ -15,4 +15,6 @@ if [ -n "${SEED_KEEP:-}" ]; then mkdir -p "$SEED_KEEP"; cp "$log" "$SEED_KEEP/ch
 rm -f "$log"
 echo "seedtest: $pid exit=$rc"
 rm -rf "$d" "/verif/work/alt-$h"
+# translators write into the shared coq/Generated even for a scratch copy: put /repo's versions back
+git -C /verif checkout -- coq/Generated 2>/dev/null
 exit $rc
